@@ -840,6 +840,9 @@ def _neighbours_as_range(lc: tuple) -> tuple:
         return lc
     s0 = single_atom(ia[2][0]) if is_poly(ia[2][0]) else ia[2][0]
     s1 = single_atom(ia[2][1]) if is_poly(ia[2][1]) else ia[2][1]
+    if s0 and s1 and s1[0] == 'sub' and s1[1] == s0 and isinstance(s1[2], tuple) and s1[2][:1] == ('slice',):
+        # zip(X, X[1:]) stops with the shorter operand: the same pairs as zip(X[:-1], X[1:])
+        s0 = ('sub', s0, ('slice', None, sub(atom(('call', 'len', (atom(s0),))), ONE), None))
     if not (s0 and s1 and s0[0] == 'sub' and s1[0] == 'sub' and s0[1] == s1[1]
             and isinstance(s0[2], tuple) and isinstance(s1[2], tuple) and s0[2][:1] == ('slice',) and s1[2][:1] == ('slice',)):
         return lc
